@@ -15,8 +15,10 @@ import time
 from . import build
 
 VERIF = build.VERIF
-EVID = os.path.join(VERIF, "evidence")
-REPLAY = os.path.join(VERIF, "replay")
+# VERIF_OUT redirects evidence and replay files (used when a seeded change is checked next to other runs)
+_OUT = os.environ.get("VERIF_OUT", VERIF)
+EVID = os.path.join(_OUT, "evidence")
+REPLAY = os.path.join(_OUT, "replay")
 KNOWN = os.path.join(VERIF, "known_findings.json")
 NCPU = min(16, os.cpu_count() or 4)
 
@@ -128,7 +130,7 @@ def sanitizer_signature(text):
 
 
 def run_sharded(res, exe, args, rundir, nshards=NCPU, per_case_timeout=120, env_extra=None, crash_prop=None,
-                crash_is_violation=True, max_restarts=200, total_cases_hint=None):
+                crash_is_violation=True, max_restarts=200, total_cases_hint=None, max_hangs=2):
     """Runs `exe args --shard i --nshards N` for all shards in parallel.  A shard that dies is
     attributed to the case named in its progress file, recorded, and restarted after that case.
     A shard whose progress does not change for per_case_timeout seconds is killed (hang event)."""
@@ -138,6 +140,7 @@ def run_sharded(res, exe, args, rundir, nshards=NCPU, per_case_timeout=120, env_
     def one(shard):
         start = 0
         restarts = 0
+        hangs = 0
         while True:
             out = os.path.join(rundir.path, "ev-%d-%d.jsonl" % (shard, restarts))
             prog = os.path.join(rundir.path, "pr-%d.txt" % shard)
@@ -220,6 +223,13 @@ def run_sharded(res, exe, args, rundir, nshards=NCPU, per_case_timeout=120, env_
                         res.inconclusive.append(what)
             restarts += 1
             start = caseidx + 1
+            if hung:
+                hangs += 1
+                if hangs >= max_hangs:
+                    # every hang costs a full watchdog period: the violations are recorded, stop exploring this shard
+                    with lock:
+                        res.notes.append({"t": "note", "text": "shard %d abandoned after %d hangs" % (shard, hangs)})
+                    return
             if restarts > max_restarts:
                 with lock:
                     res.inconclusive.append("shard %d restarted more than %d times" % (shard, max_restarts))
